@@ -2,7 +2,10 @@
 from checks_common import three
 
 CHECK = {
-    "runs": three("c03_hashtable", [], scales=(0.6, 1.0, 2.0)),
+    "runs": three("c03_hashtable", [], scales=(0.5, 1.0, 2.0), timeout_quick=2400,
+                  # no stack address is ever published by these containers; the per-thread fake stacks cost 3x wall
+                  # time with one thread set per episode
+                  asan_options="detect_stack_use_after_return=0"),
     "design_ref": "DESIGN.md §5 C03",
     "technique": "stress + schedule perturbation (element constructor / hasher / operator== callbacks inside the "
                  "BUSY window and between group load and key compare, PCT-style stalls at the ht:* hook points); "
